@@ -160,6 +160,11 @@ func (ds *dataStore) flushPending() {
 	ds.Lock()
 	head := ds.newHead
 	ds.Unlock()
+	ds.flushPendingBelow(head)
+}
+
+// flushPendingBelow does so for the files below the given one.
+func (ds *dataStore) flushPendingBelow(head int) {
 	for i := 0; i < head; i++ {
 		ds.chunks[i].Lock()
 		n := len(ds.chunks[i].wbuf)
